@@ -72,6 +72,7 @@ fn registry() -> Vec<PartEntry> {
         part!("C05", seq::C05Seq),
         part!("C07", life::C07CancelAll),
         part!("C08", seq::C08Reserved),
+        part!("C09", log::C09Log),
         part!("C10", seq::C10Lifetimes),
         part!("C13", alloc::C13Pool),
         part!("C14", alloc::C14Handles),
